@@ -174,6 +174,11 @@ def build_cells(seed: int, doc: dict, hashseeds: list[int], with_hooks: bool, ot
         hist_config = r.choice([None, {"content_type_overrides": CT_OVERRIDES_ALT}, {"content_type_overrides": CT_OVERRIDES_ALT, "literal_enums": True},
                                 {"field_prefix": "attr_", "use_path_prefixes_for_title_model_names": False}])
         cells.append({"id": f"warm{i}", "kind": "warm", "h": h, **skew(), "history": hist, "hooks": "off", "perm": None, "hist_config": hist_config})
+    # the output location has a history too: other documents (same title => same package) were generated into the SAME
+    # directory before, then D with --overwrite; the tree must equal the one generated into a fresh directory
+    h = r.choice([hashseeds[0], *others])
+    cells.append({"id": "overwrite0", "kind": "overwrite", "h": h, **skew(), "history": r.choice([["other0"], ["other1", "other0"], ["self"], ["other0", "self"]]),
+                  "hooks": "off", "perm": None, "same_dir": True})
     for i, p in enumerate(make_perms(doc, r, r.randint(2, 6))):
         cells.append({"id": f"perm{i}", "kind": "perm", "h": r.choice([hashseeds[0], *others]), "tz": "UTC", "umask": 0o022, "cwd": "w",
                       "history": [], "hooks": "off", "perm": p})
@@ -225,9 +230,12 @@ def gen_cell(args: dict, sandbox: str) -> dict:
         dp = os.path.join(sandbox, f"doc{n}.json")
         with open(dp, "w") as f:
             json.dump(d, f)
-        out = os.path.join(sandbox, f"out{n}")
+        out = os.path.join(sandbox, "out_same" if cell.get("same_dir") else f"out{n}")
         # earlier generations of a warm cell are only HISTORY of the process (possibly under another configuration)
-        res = genrun.run_cli(["generate", "--path", dp, "--config", cfgpath if last else hist_cfgpath, "--meta", meta, "--output-path", out])
+        argv = ["generate", "--path", dp, "--config", cfgpath if last else hist_cfgpath, "--meta", meta, "--output-path", out]
+        if cell.get("same_dir") and n > 0:
+            argv.append("--overwrite")
+        res = genrun.run_cli(argv)
     assert res is not None and out is not None
     tree = genrun.read_tree(out) if os.path.isdir(out) else {}
     files = {k: hashlib.sha256(v).hexdigest() for k, v in tree.items()}
@@ -273,7 +281,7 @@ def compare(a: dict, b: dict) -> tuple[str, str] | None:
     return file_class(first), f"differing={diff[:5]} only_first={only_a[:5]} only_second={only_b[:5]}"
 
 
-KIND_OF = {"cold": "process-nondeterminism", "warm": "history-dependence", "perm": "order-dependence", "ruff": "hooks-nondeterminism", "noruff": "hooks-nondeterminism"}
+KIND_OF = {"overwrite": "output-history-dependence", "cold": "process-nondeterminism", "warm": "history-dependence", "perm": "order-dependence", "ruff": "hooks-nondeterminism", "noruff": "hooks-nondeterminism"}
 
 
 def judge(doc_seed: int, doc: dict, cells: list[dict], results: dict[str, dict], docs: dict, meta: str, config: dict) -> dict:
@@ -310,6 +318,11 @@ def judge(doc_seed: int, doc: dict, cells: list[dict], results: dict[str, dict],
             cmp = compare(base, r_)
             if cmp:
                 add("process-nondeterminism", by_id["base"], c, cmp)
+        elif c["kind"] == "overwrite":
+            ref = next((x for x in cells if x["kind"] in ("base", "cold") and x["h"] == c["h"]), by_id["base"])
+            cmp = compare(results[ref["id"]], r_)
+            if cmp:
+                add("output-history-dependence", ref, c, cmp)
         elif c["kind"] == "warm":
             # against the cold cell of the same interpreter
             ref = next((x for x in cells if x["kind"] in ("base", "cold") and x["h"] == c["h"]), by_id["base"])
